@@ -25,14 +25,16 @@ Tracked(m) == Cardinality(ToSet(m.act) \cup ToSet(m.del) \cup ToSet(m.pend))
 
 \* taintFail / createFail: the behaviour made a taint patch / a NodeClaim create fail (the two places after which a
 \* reservation has to be given back without a NodeClaim having been created)
+\* window: a reconcile was scheduled inside cluster.UpdateNodeClaim, between NodePoolState.Cleanup and UpdateNodeClaim
 St0(cfg) == [cfg |-> cfg, claims |-> {}, idx |-> {}, mem |-> NoMem, gcDropped |-> FALSE, taintFail |-> FALSE,
-             createFail |-> FALSE]
+             createFail |-> FALSE, window |-> FALSE]
 TraceInit == l = 1 /\ st = St0([limit |-> 0]) /\ viol = <<>> /\ ntr = 0 /\ done = FALSE
 
 IsClaim == Ev.kind = "NodeClaim"
 \* the witness class of an over-limit create: did the entry GC throw away pending-disruption claims or reservations
 \* before, does the bookkeeping know fewer claims than the API holds, or is it complete
-CapSig == IF st.gcDropped THEN "after-entry-gc-dropped-pending-or-reservation"
+CapSig == IF st.window THEN "reserve-inside-cluster-update-window"
+          ELSE IF st.gcDropped THEN "after-entry-gc-dropped-pending-or-reservation"
           ELSE IF Tracked(st.mem) + st.mem.res < Cardinality(st.claims) THEN "tracked-fewer-than-api"
           ELSE "tracked-complete"
 
@@ -93,12 +95,13 @@ TStep == /\ Ev.e = "Step"
          /\ st' = [st EXCEPT !.taintFail = @ \/ (Ev.a = "X_Taint" /\ Ev.ok = "false"),
                              !.createFail = @ \/ (Ev.a = "W_Create" /\ Ev.ok = "false")]
          /\ UNCHANGED viol
+TWindow == Ev.e = "Window" /\ st' = [st EXCEPT !.window = TRUE] /\ UNCHANGED viol
 TOther == Ev.e \in {"Skip", "Begin", "End", "EndTrace", "Tick", "Prov", "Read"} /\ UNCHANGED <<st, viol>>
 
 TraceNext ==
     \/ /\ l <= Len(Trace) /\ l' = l + 1 /\ UNCHANGED done
        /\ \/ (Ev.e = "Cfg" /\ st' = St0(Ev) /\ ntr' = ntr + 1 /\ UNCHANGED viol)
-          \/ ((TApi \/ TEnv \/ TMem \/ TPanic \/ TQuiesce \/ TStep \/ TOther) /\ UNCHANGED ntr)
+          \/ ((TApi \/ TEnv \/ TMem \/ TPanic \/ TQuiesce \/ TStep \/ TWindow \/ TOther) /\ UNCHANGED ntr)
     \/ /\ l = Len(Trace) + 1 /\ ~done /\ done' = TRUE
        /\ JsonSerialize(IOEnv.OUT, [viol |-> viol, consumed |-> l - 1, traces |-> ntr])
        /\ UNCHANGED <<l, st, viol, ntr>>
